@@ -153,7 +153,10 @@ func emitFlow(s ordgen.Scenario) (ok bool) {
 	if s.Note != "" {
 		c.Tally("note/" + s.Note + "/" + verdict)
 	}
-	key := fmt.Sprintf("%s|%d|%s|%v|%s|%v", s.Flow, s.Price, s.Quote.Key(), fundKey(s), s.Ord.Script, s.ListedOther)
+	key := fmt.Sprintf("%s|%d|%s|%v|%s|%v|%d", s.Flow, s.Price, s.Quote.Key(), fundKey(s), s.Ord.Script, s.ListedOther, s.TamperPay)
+	if s.TamperPay != 0 {
+		coq = "" // the model has no tampering: the Go-level statement of the property above is what is checked
+	}
 	c.Case(coq, s, key, true)
 	return
 }
@@ -219,7 +222,17 @@ func genScenario(r *common.Rand, flow string) (s ordgen.Scenario, tune int) {
 	}
 	mk := func(v uint64) ordgen.U {
 		k := buyers[r.Intn(2)]
-		return ordgen.U{Txid: common.Hex(r.Bytes(32)), Vout: uint32(r.Intn(4)), Sats: v, Script: common.Hex(k.P2PKH()), Key: k}
+		u := ordgen.U{Txid: common.Hex(r.Bytes(32)), Vout: uint32(r.Intn(4)), Sats: v, Script: common.Hex(k.P2PKH()), Key: k}
+		// several outputs of ONE earlier transaction fund the purchase (a payment and its change), or an output of the
+		// very transaction that created the ordinal: outpoints differ by their index only
+		if r.Chance(30) {
+			u.Txid = s.Ord.Txid
+			if len(s.Funding) > 0 && r.Bool() {
+				u.Txid = s.Funding[r.Intn(len(s.Funding))].Txid
+			}
+			u.Vout = uint32(10 + len(s.Funding))
+		}
+		return u
 	}
 	nearPrice := func() uint64 {
 		switch r.Intn(5) {
@@ -361,6 +374,19 @@ func flowCases(r *common.Rand, bases int) {
 				}
 			} else {
 				c.Tally("boundary/none/" + flow)
+			}
+			// the bid reaches the seller with another amount on the payment output (no bidder signature covers it):
+			// whatever the acceptance flow then completes still routes the ordinal to the buyer and pays the fee
+			if flow == "bid" && b%2 == 0 {
+				x := withTuned(s, tune, s.Funding[tune].Sats, "ample")
+				x.TamperPay = []uint64{1, s.Price / 2, s.Price - 1, s.Price + 1}[r.Intn(4)]
+				if x.TamperPay == 0 {
+					x.TamperPay = 1
+				}
+				if x.TamperPay != s.Price {
+					x.Note = "bid-payment-output-altered-in-transit"
+					emitFlow(x)
+				}
 			}
 			// negatives and variations
 			switch r.Intn(8) {
